@@ -114,4 +114,9 @@ theorem C10_tie_int_push (intcs : Option (List Nat)) (op : Op) :
     Generated.isIntPushIns (TieM.envOf intcs) op = TieM.ipOf intcs op :=
   TieM.isIntPush_tie intcs op
 
+/-- the views of the translated functions read `isinstance(x, C)` as "x is of class C": right, because on this run no class of
+    /repo's instruction / field modules is a subclass of another one the analyses test for (`itxn` is not a `Txn`, `gitxn` not a
+    `Gtxn`; only the `intc` family shares `IntcInstruction`) -/
+theorem C10_tie_class_hierarchy : Generated.classHierarchy = PyView.classHierarchySpec := Tie.class_hierarchy_tie
+
 end Tealer.C10
